@@ -241,7 +241,21 @@ def slice_(eng, st, v, lo, hi):
                         continue
                     for s4, left, rest in split_at(eng, s3, v.segs, lo_e):
                         for s5, mid, _ in split_at(eng, s4, rest, z3.simplify(hi_e - lo_e)):
-                            out.append((s5, _SB(mid)))
+                            out.append((s5, _SB(_drop_empty(s5, mid))))
+    return out
+
+
+def _drop_empty(st, segs):
+    """remove segments whose length is 0 on this path (keeps later consumers on the aligned fast path)"""
+    out = []
+    for seg in segs:
+        if seg[0] in ("ascii", "utf8", "blob"):
+            ln = z3.simplify(seg_len(seg))
+            if z3.is_int_value(ln) and ln.as_long() == 0:
+                continue
+            if not z3.is_int_value(ln) and st.must(ln == 0):
+                continue
+        out.append(seg)
     return out
 
 
